@@ -4,6 +4,8 @@ IR: {"world","vars","tree":Block}
   Block = {"conds":[Cond], "args":[var indexes of the conclusion] | None, "children":[{"kind","block"}]}
   kind in refinement | alternative | next_rule ; every block with "args" concludes Add(views, inference(K_i)(v<j>=var_j ...))
   with a class K_i unique to the block (i = position in written order), so the branch that fired is visible.
+  optional "twin": every concluding block concludes a second instance as well, Add(views2, inference(L_i)(v<j>=var_j ...))
+  over block["args2"] (a non-empty subset of its args); the query selects set_of([views, views2], ...).
 Oracle: reference ripple-down-rules interpreter per total assignment of the base variables.
 """
 from __future__ import annotations
@@ -129,6 +131,10 @@ def ir_features(ir):
     f = shape_features(ir["tree"])
     if len(stage_bounds(ir)) > 1 and ir.get("eval_between"):
         f.add("extended_after_evaluation")
+    if ir.get("twin"):
+        f.add("two_conclusions_per_branch")
+        if any(b["args"] is not None and len(b["args2"]) < len(b["args"]) for b in blocks_in_order(ir["tree"])):
+            f.add("second_conclusion_over_fewer_variables")
     return f
 
 
@@ -168,7 +174,9 @@ class C08(Check):
         "bound). The set {(K_i, identities of the constructor arguments)} must match the instances returned by "
         "evaluate(), and a second evaluate() of the same rule query must return the same set. A third of the trees "
         "with >= 2 top-level branches is written in several `with query:` blocks (the base conclusion in the first or "
-        "the last one), optionally evaluated after each block against the oracle of the tree written so far. Non-trivial: at "
+        "the last one), optionally evaluated after each block against the oracle of the tree written so far. A quarter "
+        "of the trees conclude two instances per branch (set_of over two inferred variables), the second one built from "
+        "a subset of the branch's variables; the two instances of a result must stem from one branch and one binding. Non-trivial: at "
         "least two different branches fire for different assignments and some branch is overridden or skipped. "
         "Distinct = distinct IR."
     )
@@ -249,6 +257,13 @@ class C08(Check):
                 out["stages"] = draw(st.lists(st.integers(1, 2), min_size=1, max_size=2))
                 out["late_add"] = draw(st.booleans()) and tree["args"] is not None
                 out["eval_between"] = draw(st.booleans()) and "extended_after_evaluation" not in ex
+            if draw(st.sampled_from([0, 0, 0, 1])):
+                # every branch concludes two instances, the second one possibly about fewer variables of the binding
+                out["twin"] = True
+                for blk in blocks_in_order(tree):
+                    if blk["args"] is not None:
+                        k = draw(st.integers(1, len(blk["args"])))
+                        blk["args2"] = sorted(draw(st.lists(st.sampled_from(blk["args"]), min_size=k, max_size=k, unique=True)))
             return out
 
         return ir()
@@ -331,6 +346,15 @@ class C08(Check):
             f, lo, up = eval_chain(chain_of(ir["tree"]), s)
             lower |= lo
             upper |= up
+        if ir.get("twin"):
+            # the pair of instances of one result: both from the same branch, the second one built from the
+            # values of the same binding
+            def pair(el):
+                i, labels = el
+                a, a2 = blocks[i]["args"], blocks[i]["args2"]
+                return (i, labels + ("&",) + tuple(labels[a.index(j)] for j in a2))
+
+            lower, upper = {pair(e) for e in lower}, {pair(e) for e in upper}
         return lower, upper, overridden[0]
 
     # ------------------------------------------------------------------------------------------
@@ -340,7 +364,7 @@ class C08(Check):
         `with query:` blocks; ir["late_add"]: the base conclusion is written in the last block instead of the first.
         on_stage(query, decode, n_children_written, base_conclusion_written) is called after every block."""
         from krrood.entity_query_language.conclusion import Add
-        from krrood.entity_query_language.entity import entity, inference
+        from krrood.entity_query_language.entity import entity, inference, set_of
         from krrood.entity_query_language.quantify_entity import an
         from krrood.entity_query_language.rule import alternative, next_rule, refinement
 
@@ -353,12 +377,21 @@ class C08(Check):
         b = lang.Builder(base_ir, objs, hooks=run.hooks())
         variables = [b.var(i) for i in range(n_vars)]
         views = inference(View)()
-        query = an(entity(views, *[b.cond(c) for c in ir["tree"]["conds"]]))
+        twin = bool(ir.get("twin"))
+        if twin:
+            L = [make_dataclass(f"L{i}", [(f"v{j}", object, None) for j in range(n_vars)], eq=False) for i in range(len(blocks))]
+            View2 = make_dataclass("View2", [], eq=False)
+            views2 = inference(View2)()
+            query = an(set_of([views, views2], *[b.cond(c) for c in ir["tree"]["conds"]]))
+        else:
+            query = an(entity(views, *[b.cond(c) for c in ir["tree"]["conds"]]))
         fn = {"refinement": refinement, "alternative": alternative, "next_rule": next_rule}
 
         def conclude(block):
             if block["args"] is not None:
                 Add(views, inference(K[index[id(block)]])(**{f"v{j}": variables[j] for j in block["args"]}))
+                if twin:
+                    Add(views2, inference(L[index[id(block)]])(**{f"v{j}": variables[j] for j in block["args2"]}))
 
         def emit_child(ch):
             with fn[ch["kind"]](*[b.cond(c) for c in ch["block"]["conds"]]):
@@ -366,11 +399,24 @@ class C08(Check):
                 for g in ch["block"]["children"]:
                     emit_child(g)
 
-        def decode(inst):
+        def decode_one(inst):
             i = next((k for k, cls in enumerate(K) if type(inst) is cls), None)
             if i is None:
                 return ("?", repr(inst))
             return (i, tuple(getattr(inst, f"v{j}")._label for j in blocks[i]["args"]))
+
+        def decode(res):
+            if not twin:
+                return decode_one(res)
+            first, second = res[views], res[views2]
+            i, labels = decode_one(first)
+            i2 = next((k for k, cls in enumerate(L) if type(second) is cls), None)
+            if i == "?" or i2 is None:
+                return ("?", (repr(first), repr(second)))
+            labels2 = tuple(getattr(second, f"v{j}")._label for j in blocks[i2]["args2"])
+            if i2 != i:
+                return (f"{i}+{i2}", labels + ("&",) + labels2)  # the two instances of one result come from different branches
+            return (i, labels + ("&",) + labels2)
 
         children = ir["tree"]["children"]
         stages = stage_bounds(ir)
@@ -420,7 +466,7 @@ class C08(Check):
             lo_p, up_p, _ = self.oracle(part, objs)
             if (lo_p - got_part) or (got_part - up_p):
                 return fail("wrong_conclusions_of_partial_tree",
-                            f"after {len(part['tree']['children'])} of {len(ir['tree']['children'])} branches: missing={sorted(lo_p - got_part)[:4]} extra={sorted(got_part - up_p)[:4]}",
+                            f"after {len(part['tree']['children'])} of {len(ir['tree']['children'])} branches: missing={sorted(lo_p - got_part, key=repr)[:4]} extra={sorted(got_part - up_p, key=repr)[:4]}",
                             classes=classes, nontrivial=nontrivial, features=feats, bucket=fb)
         got = runs[0]
         missing, extra = lower - got, got - upper
@@ -429,10 +475,10 @@ class C08(Check):
             kind = "missing_conclusion" if missing and not extra else ("extra_conclusion" if extra and not missing else "wrong_conclusions")
             if silent:
                 kind = "branch_silently_ignored" if not extra else kind
-            return fail(kind, f"missing={sorted(missing)[:4]} extra={sorted(extra)[:4]} ignored_branches={sorted(silent)}",
+            return fail(kind, f"missing={sorted(missing, key=repr)[:4]} extra={sorted(extra, key=repr)[:4]} ignored_branches={sorted(silent, key=repr)}",
                         classes=classes, nontrivial=nontrivial, features=feats, bucket=fb)
         if runs[1] != runs[0]:
-            return fail("second_evaluation_differs", f"first={sorted(runs[0])[:4]} second={sorted(runs[1])[:4]}",
+            return fail("second_evaluation_differs", f"first={sorted(runs[0], key=repr)[:4]} second={sorted(runs[1], key=repr)[:4]}",
                         classes=classes, nontrivial=nontrivial, features=feats | {"re_evaluation"}, bucket=fb)
         return Outcome(nontrivial=nontrivial, classes=classes)
 
